@@ -153,7 +153,7 @@ theorem cell_bucket_step {E B : Int} (c : Cell) (b : Option Bucket) (t : Int) (r
   have hpad1 : τ ≤ pad := by rw [hpad]; exact Int.le_max_left _ _
   have hpad2 : E ≤ pad := by rw [hpad]; exact Int.le_max_right _ _
   have hpad3 : pad = τ ∨ pad = E := by rw [hpad]; omega
-  obtain ⟨d1, d2, d3, d4, d5, d6, d7, d8, d9, d10, d11, d12⟩ := decision_D hreq τ tat p hτ htat hp
+  obtain ⟨d1, d2, d3, d4, d5, d6, d7, d8, d9, d10, d11, d12, d13⟩ := decision_D hreq τ tat p hτ htat hp
   rw [hst, hout]
   generalize decision E r (Cell.ops.get c r.key r.now) = d at *
   have hp0 : 0 ≤ p := by rw [hp]; exact Int.mul_nonneg (by omega) hv.1
